@@ -470,7 +470,7 @@ package app
 //@   loop 2 invariant idx >= -1
 //@   loop 3 invariant idx >= -1 && held(p.runProcMutex) && (forall m ref :: m != addr(p.runProcMutex) ==> !held(m))
 //@   loop 3 invariant forall j int :: 0 <= j && j <= idx ==> abool(shutdownOrder[j].isStopped)
-//@   assigns everything_but starts[*], gateOpen[*], wasSkipped[*], types.RestartPolicyConfig.Restart[*], types.RestartPolicyConfig.ExitOnEnd[*], types.RestartPolicyConfig.ExitOnSkipped[*], app.ProjectRunner.runningProcesses[*], app.ProjectRunner.doneProcesses[*], heap(MapDom.Str), heap(MapVal.Str.ptr.app.Process), types.ProcessConfig.ReplicaName[*]
+//@   assigns everything_but starts[*], gateOpen[*], wasSkipped[*], types.RestartPolicyConfig.Restart[*], types.RestartPolicyConfig.ExitOnEnd[*], types.RestartPolicyConfig.ExitOnSkipped[*], app.ProjectRunner.runningProcesses[*], app.ProjectRunner.doneProcesses[*], heap(MapDom.Str.ptr.app.Process), heap(MapVal.Str.ptr.app.Process), types.ProcessConfig.ReplicaName[*]
 
 // the visitor of the ordered branch only ever appends well-formed registered processes
 //@ func (p *ProjectRunner) ShutDownProject$1
@@ -501,7 +501,7 @@ package app
 //@   ensures notrigger: !exitTrigger(exitCode, procConf) ==> shutdownCalls() == old(shutdownCalls()) && p.exitCode == old(p.exitCode)
 //@   ensures first-trigger-wins: exitTrigger(exitCode, procConf) ==> p.exitCodeSet && p.exitCode == ite(old(p.exitCodeSet), old(p.exitCode), exitCode)
 //@   ensures nolocks: noLocks()
-//@   assigns everything_but starts[*], gateOpen[*], wasSkipped[*], types.RestartPolicyConfig.Restart[*], types.RestartPolicyConfig.ExitOnEnd[*], types.RestartPolicyConfig.ExitOnSkipped[*], app.ProjectRunner.runningProcesses[*], app.ProjectRunner.doneProcesses[*], heap(MapDom.Str), heap(MapVal.Str.ptr.app.Process), types.ProcessConfig.ReplicaName[*]
+//@   assigns everything_but starts[*], gateOpen[*], wasSkipped[*], types.RestartPolicyConfig.Restart[*], types.RestartPolicyConfig.ExitOnEnd[*], types.RestartPolicyConfig.ExitOnSkipped[*], app.ProjectRunner.runningProcesses[*], app.ProjectRunner.doneProcesses[*], heap(MapDom.Str.ptr.app.Process), heap(MapVal.Str.ptr.app.Process), types.ProcessConfig.ReplicaName[*]
 
 //@ func (p *ProjectRunner) onProcessSkipped
 //@   requires noLocks() && runnerWF(p)
@@ -509,7 +509,7 @@ package app
 //@   ensures notrigger: !procConf.RestartPolicy.ExitOnSkipped ==> shutdownCalls() == old(shutdownCalls()) && p.exitCode == old(p.exitCode)
 //@   ensures first-trigger-wins: procConf.RestartPolicy.ExitOnSkipped ==> p.exitCodeSet && p.exitCode == ite(old(p.exitCodeSet), old(p.exitCode), 1)
 //@   ensures nolocks: noLocks()
-//@   assigns everything_but starts[*], gateOpen[*], wasSkipped[*], types.RestartPolicyConfig.Restart[*], types.RestartPolicyConfig.ExitOnEnd[*], types.RestartPolicyConfig.ExitOnSkipped[*], app.ProjectRunner.runningProcesses[*], app.ProjectRunner.doneProcesses[*], heap(MapDom.Str), heap(MapVal.Str.ptr.app.Process), types.ProcessConfig.ReplicaName[*]
+//@   assigns everything_but starts[*], gateOpen[*], wasSkipped[*], types.RestartPolicyConfig.Restart[*], types.RestartPolicyConfig.ExitOnEnd[*], types.RestartPolicyConfig.ExitOnSkipped[*], app.ProjectRunner.runningProcesses[*], app.ProjectRunner.doneProcesses[*], heap(MapDom.Str.ptr.app.Process), heap(MapVal.Str.ptr.app.Process), types.ProcessConfig.ReplicaName[*]
 
 // C01/C05: the per-process goroutine — the command is launched only behind an open dependency gate;
 // a process whose gate stays closed is skipped (exit code 1) and never launched.
@@ -585,6 +585,112 @@ package app
 //@   ensures none-on-error: result != nil ==> spawned(fntag("(*app.ProjectRunner).runProcess$1")) == old(spawned(fntag("(*app.ProjectRunner).runProcess$1")))
 //@   ensures prev-stopped: old(name in p.runningProcesses) ==> abool(old(p.runningProcesses[name]).isStopped) && cancelled(old(p.runningProcesses[name]).procRunCtx)
 //@   ensures prev-exited: result == nil && old(name in p.runningProcesses) ==> old(p.runningProcesses[name]).done
+
+// ---------- C13: scaling ----------
+//@ func (p *Process) setName
+//@   ensures p.procConf.ReplicaName == replicaName
+//@   assigns p.procConf.ReplicaName
+//@ func (p *ProjectRunner) removeProcessLogs
+//@   requires noLocks()
+//@   ensures result == ite(old(name in p.processLogs), old(p.processLogs[name]), nil)
+//@   ensures removed: !(name in p.processLogs)
+//@   ensures others: forall k string :: k != name ==> (k in p.processLogs <==> old(k in p.processLogs)) && p.processLogs[k] == old(p.processLogs[k])
+//@   ensures noLocks()
+//@   assigns p.processLogs[name], pclog.ProcessLogBuffer.observers[*], acquires[*]
+
+// the running registry is keyed by the replica name of the registered instance
+//@ define runnerKeyed(p *ProjectRunner) bool = forall k string :: k in p.runningProcesses ==> p.runningProcesses[k].procConf.ReplicaName == k
+// Renaming a replica moves the SAME running instance, log buffer, state object and configuration from the old
+// key to the new one in all four maps; nothing stays behind under the old name and no other entry changes.
+//@ func (p *ProjectRunner) renameProcess
+//@   requires noLocks() && runnerWF(p) && name != newName
+//@   requires maps: p.processLogs != nil && p.processStates != nil && p.project.Processes != nil
+//@   requires keyed: runnerKeyed(p)
+//@   requires logs-nonnil: forall k string :: k in p.processLogs ==> p.processLogs[k] != nil
+//@   requires target-free: !(newName in p.runningProcesses)
+//@   requires confs-unshared: forall a string, b string :: a in p.runningProcesses && b in p.runningProcesses && a != b ==> p.runningProcesses[a].procConf != p.runningProcesses[b].procConf
+//@   after (*app.ProjectRunner).addRunningProcess assert re-registered: noLocks() && runnerWF(p)
+//@   after (*app.ProjectRunner).removeProcessLogs assert logs-removed: noLocks() && runnerWF(p)
+//@   ensures instance: old(name in p.runningProcesses) ==> newName in p.runningProcesses && p.runningProcesses[newName] == old(p.runningProcesses[name]) && p.runningProcesses[newName].procConf.ReplicaName == newName
+//@   ensures instance-gone: !(name in p.runningProcesses)
+//@   ensures logs: old(name in p.processLogs) ==> newName in p.processLogs && p.processLogs[newName] == old(p.processLogs[name])
+//@   ensures logs-gone: !(name in p.processLogs)
+//@   ensures state: old(name in p.processStates) ==> newName in p.processStates && p.processStates[newName] == old(p.processStates[name]) && p.processStates[newName].Name == newName
+//@   ensures state-gone: old(name in p.processStates) ==> !(name in p.processStates)
+//@   ensures config: old(name in p.project.Processes) ==> newName in p.project.Processes && p.project.Processes[newName].ReplicaName == newName && p.project.Processes[newName].Name == old(p.project.Processes[name].Name) && p.project.Processes[newName].ReplicaNum == old(p.project.Processes[name].ReplicaNum) && p.project.Processes[newName].Replicas == old(p.project.Processes[name].Replicas) && p.project.Processes[newName].Command == old(p.project.Processes[name].Command)
+//@   ensures config-gone: !(name in p.project.Processes)
+//@   ensures others-running: forall k string :: k != name && k != newName ==> (k in p.runningProcesses <==> old(k in p.runningProcesses)) && p.runningProcesses[k] == old(p.runningProcesses[k])
+//@   ensures others-config: forall k string :: k != name && k != newName ==> (k in p.project.Processes <==> old(k in p.project.Processes)) && p.project.Processes[k] == old(p.project.Processes[k])
+//@   ensures keyed: runnerKeyed(p)
+//@   ensures nolocks: noLocks()
+
+// A replica that is added gets its OWN fresh state object and log buffer and its configuration under its replica
+// name; it is launched (exactly one instance) unless it is disabled or a foreground process.
+//@ func (p *ProjectRunner) initProcessLog
+//@   requires p.processLogs != nil && p.project.LogLength >= 0
+//@   ensures name in p.processLogs && fresh(p.processLogs[name]) && bufWF(p.processLogs[name]) && len(p.processLogs[name].buffer) == 0
+//@   assigns p.processLogs[name]
+//@ func (p *ProjectRunner) addProcessAndRun
+//@   requires noLocks() && runnerWF(p) && p.processStates != nil && p.processLogs != nil && p.project.Processes != nil && p.project.LogLength >= 0
+//@   requires no-live-instance: !(proc.ReplicaName in p.runningProcesses) || p.runningProcesses[proc.ReplicaName].done
+//@   ensures own-state: proc.ReplicaName in p.processStates && fresh(p.processStates[proc.ReplicaName]) && p.processStates[proc.ReplicaName].Name == proc.ReplicaName && p.processStates[proc.ReplicaName].Restarts == 0 && p.processStates[proc.ReplicaName].ExitCode == 0
+//@   ensures own-log: proc.ReplicaName in p.processLogs && fresh(p.processLogs[proc.ReplicaName]) && len(p.processLogs[proc.ReplicaName].buffer) == 0
+//@   ensures config: proc.ReplicaName in p.project.Processes && p.project.Processes[proc.ReplicaName].ReplicaName == proc.ReplicaName && p.project.Processes[proc.ReplicaName].ReplicaNum == proc.ReplicaNum && p.project.Processes[proc.ReplicaName].Replicas == proc.Replicas && p.project.Processes[proc.ReplicaName].Command == proc.Command
+//@   ensures launched: spawned(fntag("(*app.ProjectRunner).runProcess$1")) == old(spawned(fntag("(*app.ProjectRunner).runProcess$1"))) + ite(proc.IsForeground || proc.Disabled, 0, 1)
+//@   ensures others-config: forall k string :: k != proc.ReplicaName ==> (k in p.project.Processes <==> old(k in p.project.Processes)) && p.project.Processes[k] == old(p.project.Processes[k])
+//@   ensures others-running: forall k string :: k != proc.ReplicaName ==> (k in p.runningProcesses <==> old(k in p.runningProcesses)) && p.runningProcesses[k] == old(p.runningProcesses[k])
+//@   ensures nolocks: noLocks() && runnerWF(p) && p.processStates != nil && p.processLogs != nil && p.project.Processes != nil && p.project.LogLength == old(p.project.LogLength)
+
+// Scale-up: the i-th added replica is numbered origScale+i, carries the new replica count, is named after both,
+// is rendered for its own number, and is added (own state, own log, launched) exactly once.
+//@ func (p *ProjectRunner) scaleUpProcess
+//@   requires noLocks() && runnerWF(p) && p.processStates != nil && p.processLogs != nil && p.project.Processes != nil && p.project.LogLength >= 0 && toAdd >= 0
+//@   requires counts: origScale >= 1 && scale == origScale + toAdd
+//@   requires names-free: forall s string, n int {replicaNameOf(s, scale, n)} :: origScale <= n && n < scale ==> !(replicaNameOf(s, scale, n) in p.runningProcesses)
+//@   after (*templater.Templater).RenderProcess assert numbered: procFromConf.ReplicaNum == origScale + i && procFromConf.Replicas == scale
+//@   ensures nolocks: noLocks()
+//@   loop 1 invariant a: noLocks() && runnerWF(p)
+//@   loop 1 invariant b: p.processStates != nil && p.processLogs != nil && p.project.Processes != nil
+//@   loop 1 invariant c: p.project.LogLength >= 0 && i >= 0
+//@   loop 1 invariant names: forall s string, n int {replicaNameOf(s, scale, n)} :: origScale + i <= n && n < scale ==> !(replicaNameOf(s, scale, n) in p.runningProcesses)
+
+// Scale-down: the selection loop runs under the configuration lock and keeps the map keyed; every selected name gets
+// a remover goroutine, whose contract is that of removeProcess. (That exactly the replicas numbered >= the new count
+// are selected is not proved: the loop updates the map it ranges over.)
+//@ func (p *ProjectRunner) scaleDownProcess
+//@   requires noLocks() && runnerWF(p) && p.project.Processes != nil
+//@   ensures removers: spawned(fntag("(*app.ProjectRunner).scaleDownProcess$1")) >= old(spawned(fntag("(*app.ProjectRunner).scaleDownProcess$1")))
+//@   loop 1 invariant held(p.procConfMutex) && (forall m ref :: m != addr(p.procConfMutex) ==> !held(m)) && p.project.Processes != nil
+//@   loop 2 invariant idx >= -1 && noLocks() && spawned(fntag("(*app.ProjectRunner).scaleDownProcess$1")) >= old(spawned(fntag("(*app.ProjectRunner).scaleDownProcess$1")))
+//@ func (p *ProjectRunner) scaleDownProcess$1
+//@   requires noLocks() && runnerWF(p)
+//@   ensures config-gone: !(name in p.project.Processes)
+
+// Removing a replica: its configuration and log leave the maps; a registered instance is flagged not-to-be-restarted,
+// its stop is requested whatever state it is in, and - unless the stop failed - it has ended when removeProcess returns.
+//@ func (p *ProjectRunner) removeProcess
+//@   requires noLocks() && runnerWF(p)
+//@   ensures config-gone: !(name in p.project.Processes)
+//@   ensures log-gone: !(name in p.processLogs)
+//@   ensures stopped: old(name in p.runningProcesses) ==> abool(old(p.runningProcesses[name]).isStopped) && cancelled(old(p.runningProcesses[name]).procRunCtx)
+//@   ensures ended: old(name in p.runningProcesses) && result == nil ==> old(p.runningProcesses[name]).done
+//@   ensures others-config: forall k string :: k != name ==> (k in p.project.Processes <==> old(k in p.project.Processes)) && p.project.Processes[k] == old(p.project.Processes[k])
+//@   ensures nolocks: noLocks()
+
+// the number of replicas currently configured under a process name; at least one if any replica carries the name
+//@ func (p *ProjectRunner) getCurrentReplicaCount
+//@   ensures nonneg: result >= 0
+//@   ensures counted: forall k string :: k in p.project.Processes && p.project.Processes[k].Name == name ==> result >= 1
+//@   assigns nothing
+//@   loop 1 invariant counter >= 0
+//@   loop 1 invariant forall k string :: seen(k) && k in p.project.Processes && p.project.Processes[k].Name == name ==> counter >= 1
+
+// Scale requests below 1 or for an unknown name fail and change nothing.
+//@ func (p *ProjectRunner) ScaleProcess
+//@   requires noLocks() && runnerWF(p) && p.processStates != nil && p.processLogs != nil && p.project.Processes != nil && p.project.LogLength >= 0
+//@   ensures invalid-scale: scale < 1 ==> result != nil
+//@   ensures unknown: !old(name in p.project.Processes) ==> result != nil
+//@   ensures unchanged-on-error: (scale < 1 || !old(name in p.project.Processes)) ==> spawned(fntag("(*app.ProjectRunner).runProcess$1")) == old(spawned(fntag("(*app.ProjectRunner).runProcess$1"))) && stops() == old(stops()) && runs() == old(runs()) && kept("abool") && unchangedOld("MapDom.Str.types.ProcessConfig") && unchangedOld("MapVal.Str.types.ProcessConfig") && unchangedOld("MapDom.Str.ptr.app.Process") && unchangedOld("MapVal.Str.ptr.app.Process")
 
 // ---------- C10: probe outcomes ----------
 //@ func (p *Process) onReadinessCheckEnd
